@@ -120,6 +120,16 @@ class LPTap:
         fault = self._fault_for(ordinal)
         ev = {'ordinal': ordinal, 'ncons': len(prob.constraints), 'fault': None,
               'injected': False}
+        # what the back end is asked to do: with a relative / absolute optimality gap or a node limit the status
+        # 'Optimal' no longer certifies an optimum (every optimisation property rests on that certificate)
+        try:
+            sv = solver if solver is not None else getattr(prob, 'solver', None)
+            od = dict(getattr(sv, 'optionsDict', None) or {})
+            gap = {k: od[k] for k in ('gapRel', 'gapAbs', 'maxNodes') if od.get(k) is not None}
+            if (gap.get('gapRel') or 0) >= 0.01 or (gap.get('gapAbs') or 0) >= 1 or gap.get('maxNodes') is not None:
+                ev['uncertified'] = gap
+        except Exception:
+            pass
         if fault is not None:
             ev['fault'] = {k: v for k, v in fault.items() if not k.startswith('_')}
             self._apply_fault(prob, solver, fault, kw)
